@@ -1493,6 +1493,9 @@ class TimePoint:
         """Returns a copy of this TimePoint with truncated time properties
         added to it."""
         new = self._copy()
+        if new._hour_of_day == CALENDAR.HOURS_IN_DAY:
+            # 24:00 is 00:00 on the next day, which may already match.
+            new._tick_over()
         if hour_of_day is not None and minute_of_hour is None:
             minute_of_hour = 0
         if ((hour_of_day is not None or minute_of_hour is not None) and
